@@ -69,7 +69,18 @@ func vpTCPFile(c *net.TCPConn) (*os.File, error) {
 	vpDupFilesOpen++
 	return &os.File{}, nil
 }
-func vpFileFd(f *os.File) uintptr { return 7 }
+
+// os.File.Fd (as documented and as the release in use implements it): it switches the descriptor to
+// blocking mode. O_NONBLOCK belongs to the open file description, which the duplicate shares with the
+// tunnel's own socket: from then on every Read on that socket sits in a system call and holds an OS thread,
+// deadlines stop working, and at the runtime's thread limit (10000 idle tunnels) the process aborts with
+// "thread exhaustion" — which nothing recovers from.
+var vpSocketBlocking bool
+
+func vpFileFd(f *os.File) uintptr {
+	vpSocketBlocking = true
+	return 7
+}
 func vpFileClose(f *os.File) error {
 	vpDupFilesClosed++
 	return nil
@@ -89,6 +100,7 @@ func VP_C10_sockbuf() {
 	vpResetHandlers()
 	vpSockopts, vpSockoptFails = nil, vpBool("setsockopt-fails")
 	vpDupFilesOpen, vpDupFilesClosed = 0, 0
+	vpSocketBlocking = false
 	tr := vpScript(0, 0)
 	vpNextTransports = []*vpTransport{tr}
 	g := &Gateway{}
@@ -119,6 +131,7 @@ func VP_C10_sockbuf() {
 	// the tunnel was served: its transport was read until the client dropped, then closed
 	vpAssert(tr.closed, "websocket-tunnel-served-and-closed-whatever-the-socket-tuning-did")
 	vpAssert(vpDupFilesOpen == vpDupFilesClosed, "no-duplicate-of-the-client-socket-is-left-open-when-the-tunnel-has-ended")
+	vpAssert(!vpSocketBlocking, "the-client-socket-stays-in-non-blocking-mode")
 	for _, l := range vpSockListeners {
 		l.Close()
 	}
